@@ -8,6 +8,9 @@ import sys
 import time
 import traceback
 
+if hasattr(sys, 'set_int_max_str_digits'):
+  sys.set_int_max_str_digits(0)
+
 VERIF = os.path.dirname(os.path.dirname(os.path.abspath(__file__)))
 BUILD = os.path.join(VERIF, '.build')
 PY = sys.executable
